@@ -558,7 +558,7 @@ func RunModel(ctx *vrun.Ctx, prop string, m ModelCfg, timeout time.Duration) err
 		var err error
 		if m.Crash {
 			if m.Prune {
-				err = crashWorkload(ctx, f, p, caches[cacheSel[i]], m.Nested, coll, 12288, 2048)
+				err = crashWorkload(ctx, f, p, caches[cacheSel[i]], m.Nested, coll, 8192, 2048)
 			} else {
 				err = crashWorkload(ctx, f, p, caches[cacheSel[i]], m.Nested, coll, 0, 0)
 			}
